@@ -53,37 +53,6 @@ HARNESS(harness_release_0) { body_release(0); }
 HARNESS(harness_release_1) { body_release(1); }
 HARNESS(harness_release_5) { body_release(5); }
 HARNESS(harness_release_8) { body_release(8); }
-/* NOT IN spec.py (no verdict within 30 min, see spec.py); kept for the native differential driver only.
- * wrapper allocators: a block obtained through a wrapper (of a wrapper) of family ba and released through a wrapper (of a wrapper)
- * of family bf is a mismatch iff the UNDERLYING families differ; depths concrete per obligation, families/layout/type checking symbolic */
-static void wrapped_scenario(const int da, const uint32_t ba, const int df, const uint32_t bf, uint32_t sep, uint32_t typecheck) {
-  uint8_t* p = h_alloc(3 * da + (int)ba, 4, sep);
-  CHECK(p != 0, "allocation succeeds");
-  CHECK(h_total(0) == 1, "the block is outstanding");
-  h_free(3 * df + (int)bf, p, sep);
-  if (typecheck && ba != bf) CHECK(reports == 1 && last_cat == 2, "families that differ underneath the wrappers are reported as allocation/deallocation type mismatch");
-  else CHECK(reports == 0, "a release through any wrapper of the allocating family is correctly paired: no report");
-  CHECK(h_total(0) == 0, "the released block is no longer outstanding");
-}
-static void body_wrapped(const int da, const int df) {
-  h_init(); h_init_wrappers();
-  IN_U32(ba); IN_U32(bf); IN_BOOL(sep); IN_BOOL(typecheck);
-  ba %= 3; bf %= 3;
-  if (!typecheck) h_period(8);
-  for (uint32_t a = 0; a < 3; a++) for (uint32_t f = 0; f < 3; f++)
-    if (ba == a && bf == f) wrapped_scenario(da, a, df, f, sep, typecheck);       /* forked per receiver object, never merged into one pointer */
-  OBSERVE(reports); OBSERVE(last_cat);
-  WITNESS("end");
-}
-/* the link the scenario above rests on, alone: what the detector compares for a wrapper (of a wrapper) is the underlying family */
-HARNESS(harness_wrapper_family) {
-  h_init(); h_init_wrappers();
-  IN_U32(unused); (void)unused;
-  for (int d = 0; d < 3; d++) for (int b = 0; b < 3; b++) CHECK(h_actual_family(3 * d + b) == b, "the family compared for a wrapper, at any depth, is the underlying new / new[] / malloc family");
-  WITNESS("end");
-}
-#define W2(a, f) HARNESS(harness_wrapped_##a##_##f) { body_wrapped(a, f); }
-W2(0, 1) W2(0, 2) W2(1, 0) W2(1, 1) W2(1, 2) W2(2, 0) W2(2, 1) W2(2, 2)
 /* already released: the second release of the same address */
 HARNESS(harness_double_release) {
   h_init(); IN_U32(fa); IN_BOOL(sep); fa %= 3;
